@@ -17,3 +17,89 @@ Proof. intros p t bs H1 H2. destruct (retained_char p t bs H1 H2) as [_ [_ [H _]
 
 Print Assumptions C18_paths_nodup.
 Print Assumptions C18_blocks_nodup.
+
+(* ------------------------------------------------------------------------------------------------------------
+   Extension (second round): theorems from Lemmas/{WalkLemmas,OutputLemmas,TypeExec,NoMiss2,ParseLemmas2,PaddingLemmas}.v *)
+From Coq Require Import List String NArith ZArith Bool Arith.
+From Tealer Require Import Tables Leaves LeafPrelude Syntax Parse Cfg StackAst Keys Analysis Domains Detect Group Output Runs Eval Exec InsExec Paths WalkLemmas OutputLemmas TypeExec NoMiss2 ParseLemmas2 PaddingLemmas.
+
+(* `cfg` DOT: one node per retained block, no node twice *)
+Theorem C18_cfg_nodes :
+  forall (p : prog) (t : teal),
+       parse_teal p = Ok t -> NoDup (full_cfg_nodes t) /\ (forall n : nat, In n (full_cfg_nodes t) <-> (exists b : block, tblock t n = Some b)).
+Proof. exact @full_cfg_nodes_spec. Qed.
+
+(* the lines shown in a node are the line numbers of the block's instructions, in order *)
+Theorem C18_cfg_node_lines :
+  forall (t : teal) (n : nat) (b : block),
+       tblock t n = Some b ->
+       full_cfg_node_lines t n = flat_map (fun k : nat => match nth_error (t_prog t) k with
+                                                          | Some i => i_line i :: nil
+                                                          | None => nil
+                                                          end) (b_ins b).
+Proof. exact @full_cfg_node_lines_spec. Qed.
+
+(* `cfg` DOT: the drawn edges are exactly the global graph relation cfg_edge (successor edges; callsub -> callee entry; retsub -> return point of every retained call site of its subroutine) *)
+Theorem C18_cfg_edges_exact :
+  forall (p : prog) (t : teal), parse_teal p = Ok t -> forall b b' : nat, In (b, b') (full_cfg_edges t) <-> cfg_edge t b b'.
+Proof. exact @full_cfg_edges_exact. Qed.
+
+(* every step of every run of the contract is an edge of the drawing *)
+Theorem C18_every_execution_step_is_drawn :
+  forall (p : prog) (t : teal),
+       parse_teal p = Ok t ->
+       forall cfgs : list rconfig,
+       Run (whole_function t) cfgs ->
+       forall (pre : list rconfig) (c c' : rconfig) (post : list rconfig), cfgs = pre ++ c :: c' :: post -> In (fst c, fst c') (full_cfg_edges t).
+Proof. exact @run_steps_drawn. Qed.
+
+(* `subroutine-cfg`: local edges of the routine *)
+Theorem C18_subroutine_cfg_edges :
+  forall (p : prog) (t : teal),
+       parse_teal p = Ok t ->
+       forall (s : subroutine) (b b' : nat),
+       In (b, b') (sub_cfg_edges t s) <->
+       In b (s_blocks s) /\ (exists blk : block, tblock t b = Some blk /\ is_callsub_block t blk = false /\ In b' (b_next blk)).
+Proof. exact @sub_cfg_edges_exact. Qed.
+
+(* `subroutine-cfg`: one call box per call site, with its return point and callee name *)
+Theorem C18_subroutine_cfg_callboxes :
+  forall (p : prog) (t : teal),
+       parse_teal p = Ok t ->
+       forall (s : subroutine) (c : nat) (rp : option nat) (name : string),
+       In (c, rp, name) (sub_cfg_callboxes t s) <->
+       In c (s_blocks s) /\ (exists blk : block, tblock t c = Some blk /\ exit_op t blk = Some (ICallsub name) /\ rp = sub_return_point blk).
+Proof. exact @sub_cfg_callboxes_exact. Qed.
+
+(* the DOT file of a reported path marks exactly the path's blocks *)
+Theorem C18_path_marks :
+  forall (path : list nat) (b : nat), path_marks path b = true <-> In b path.
+Proof. exact @path_marks_spec. Qed.
+
+(* --filter-paths removes exactly the paths whose short notation matches (re.search passed as parameter) *)
+Theorem C18_filter_paths :
+  forall (search : string -> string -> bool) (pattern : string) (paths : list (list nat)) (path : list nat),
+       pattern <> "" -> In path (filter_paths search pattern paths) <-> In path paths /\ search pattern (short_notation path) = false.
+Proof. exact @filter_paths_spec. Qed.
+
+(* count = number of listed paths; listed short notations are those of the paths, in order *)
+Theorem C18_json_count :
+  forall (t : teal) (paths : list (list nat)),
+       json_count paths = Datatypes.length (json_paths t paths) /\ map fst (json_paths t paths) = map short_notation paths.
+Proof. exact @json_count_spec. Qed.
+
+(* distinct paths have distinct short notations *)
+Theorem C18_short_notation_injective :
+  forall l1 l2 : list nat, short_notation l1 = short_notation l2 -> l1 = l2.
+Proof. exact @short_notation_inj. Qed.
+
+Print Assumptions C18_cfg_nodes.
+Print Assumptions C18_cfg_node_lines.
+Print Assumptions C18_cfg_edges_exact.
+Print Assumptions C18_every_execution_step_is_drawn.
+Print Assumptions C18_subroutine_cfg_edges.
+Print Assumptions C18_subroutine_cfg_callboxes.
+Print Assumptions C18_path_marks.
+Print Assumptions C18_filter_paths.
+Print Assumptions C18_json_count.
+Print Assumptions C18_short_notation_injective.
